@@ -2,5 +2,5 @@
 # Runs every check against every behaviour-preserving refactoring in /verif/refactors (on scratch copies of /repo,
 # never /repo itself) and prints the false alarms; all of them must be silent.
 bin=${1:-/verif/bin/mvcheck}
-ls -d /verif/refactors/*/ /verif/refactors2/*/ /verif/refactors3/*/ /verif/refactors4/*/ /verif/refactors5/*/ /verif/refactors6/*/ | sort | xargs -P 6 -I{} bash -c 'o=$(/verif/tools/try_copy.sh {}patch.diff '"$bin"' 2>&1); echo "=== {} :: $(echo "$o" | tr "\n" ";" | cut -c1-1500)"' | grep -v "all silent"
+ls -d /verif/refactors/*/ /verif/refactors2/*/ /verif/refactors3/*/ /verif/refactors4/*/ /verif/refactors5/*/ /verif/refactors6/*/ $(ls -d /verif/refactors7/*/ 2>/dev/null) | sort | xargs -P 6 -I{} bash -c 'o=$(/verif/tools/try_copy.sh {}patch.diff '"$bin"' 2>&1); echo "=== {} :: $(echo "$o" | tr "\n" ";" | cut -c1-1500)"' | grep -v "all silent"
 echo "done"
